@@ -188,6 +188,68 @@ def _ob_free_tetra(tier):
                                         "from the representation invariant, measure functions only"))
 
 
+def _tabulated_ob(famname, tier):
+    """Finite domain: every tabulated solid of a family (index enumerated by z3), built by the real constructor from a
+    permuted, rotated and translated copy of its vertices and compared with an independent float64 reference
+    (harness/floathull.py: brute-force supporting planes + fan integrals).  Extends the claims to 4-120 vertices and faces
+    of degree up to 10; tolerance 1e-9 relative."""
+    def run():
+        import numpy as rnp
+        import coxeter.families as Fm
+        from coxeter.shapes import ConvexPolyhedron
+        from . import floathull
+
+        fam = Fm.DOI_SHAPE_REPOSITORIES["10.1126/science.1220869"][0] if famname == "science1220869" else getattr(Fm, famname)
+        names = list(fam.names) if hasattr(fam, "names") else [n for n, _ in fam]
+        # rational rotation (quaternion (1,2,2,4)/5) and an offset of a few diameters
+        R = rnp.array(O.rot_from_quat(F(1, 5), F(2, 5), F(2, 5), F(4, 5)), dtype=float)
+
+        def fn(i):
+            base = rnp.asarray(fam.get_shape(names[i]).vertices, dtype=float)
+            rng = rnp.random.default_rng(1000 + i)
+            V = base[rng.permutation(len(base))] @ R.T + rnp.array([2.5, -1.75, 3.25])
+            ref = floathull.measures(V)
+            p = ConvexPolyhedron(V.copy())
+            tol = 1e-9
+
+            def close(a, b, sc=1.0):
+                return bool(rnp.all(rnp.abs(rnp.asarray(a, dtype=float) - rnp.asarray(b, dtype=float)) <= tol * max(sc, float(rnp.abs(b).max()))))
+
+            bad = []
+            if not close(p.volume, ref["volume"]):
+                bad.append("volume %r vs %r" % (p.volume, ref["volume"]))
+            if not close(p.surface_area, ref["surface_area"]):
+                bad.append("surface_area %r vs %r" % (p.surface_area, ref["surface_area"]))
+            if not close(p.centroid, ref["centroid"]):
+                bad.append("centroid %r vs %r" % (p.centroid, ref["centroid"]))
+            if not close(p.inertia_tensor, ref["inertia"]):
+                bad.append("inertia tensor differs by %g" % float(rnp.abs(p.inertia_tensor - ref["inertia"]).max()))
+            if len(p.faces) != ref["nfacets"]:
+                bad.append("%d faces vs %d facets" % (len(p.faces), ref["nfacets"]))
+            else:
+                # the stored vertices are the input vertices in input order: faces are compared by their vertex sets
+                if not close(p.vertices, V):
+                    bad.append("stored vertices differ from the input")
+                want = {tuple(ix): (a, c) for ix, a, c in ref["faces"]}
+                areas, fcs = p.get_face_area(), p.face_centroids
+                for fi, f in enumerate(p.faces):
+                    w = want.get(tuple(sorted(int(x) for x in f)))
+                    if w is None:
+                        bad.append("face %d is not a facet of the hull" % fi)
+                        break
+                    if not close(areas[fi], w[0]) or not close(fcs[fi], w[1]):
+                        bad.append("face %d: area %r vs %r, centroid %r vs %r" % (fi, areas[fi], w[0], fcs[fi], w[1]))
+                        break
+            return (not bad), ("%s: %s" % (names[i], "; ".join(bad[:3])) if bad else "")
+
+        return common.run_z3_enum("C01/tabulated." + famname, 0, len(names), fn, describe=lambda i: names[i],
+                                  bounds="all %d entries of %s (4-120 vertices, faces of degree 3-10), vertices permuted, rotated and moved off the origin; real constructor and getters "
+                                         "on float64 vs an independent brute-force reference, tolerance 1e-9" % (len(names), famname),
+                                  functions=["coxeter.shapes.ConvexPolyhedron.__init__ / volume / surface_area / centroid / inertia_tensor / get_face_area / face_centroids"])
+
+    return ("C01/tabulated." + famname, run)
+
+
 def obligations(tier, seed):
     quick = [
         ("tetra", "r1", 0, 0), ("cube", "id", 2, 1), ("box", "r2", 1, 2), ("pyramid", "r1", 2, 3), ("prism3", "id", 1, 0),
@@ -204,4 +266,6 @@ def obligations(tier, seed):
         cfgs = sorted(set(cfgs))
     obs = [_ob(*c, tier) for c in cfgs]
     obs.append(_ob_free_tetra(tier))
+    for famname in ("PlatonicFamily", "ArchimedeanFamily", "CatalanFamily", "PrismAntiprismFamily", "PyramidDipyramidFamily", "JohnsonFamily", "science1220869"):
+        obs.append(_tabulated_ob(famname, tier))
     return obs
